@@ -99,6 +99,11 @@ def build_X(xs, n, nonneg=False, d=None):
         X = rs.randn(n, d) * rs.choice([50.0, 1000.0]) + rs.choice([0.0, 100.0, 5000.0])
     elif kind == "scaled":
         X = rs.randn(n, d) * rs.choice([0.01, 1.0, 30.0]) + rs.choice([0.0, 5.0])
+    elif kind == "onehot_unused":  # a one-hot block whose last category never occurs (all-zero column) + weak noise columns
+        w = min(4, d)
+        X = 0.3 * rs.randn(n, d)
+        X[:, :w] = 0.0
+        X[np.arange(n), np.arange(n) % max(1, w - 1)] = 1.0
     elif kind == "sentinel":  # ordinary values mixed with a missing-value code of extreme magnitude in one column
         X = rs.randn(n, d)
         rows = rs.choice(n, size=max(1, n // 5), replace=False)
@@ -182,6 +187,15 @@ def ref_affinity(aspec, X):
     if aspec["form"] == "indef":
         A = rs.randn(n, n)
         return np.ascontiguousarray((A + A.T) / 2)
+    if aspec["form"] == "sparse":
+        # a similarity with many exact zeros (k-nearest-neighbour graph, thresholded kernel): handed to the objective as a
+        # scipy sparse matrix, the reference works on the equal dense array
+        rs2 = np.random.RandomState(aspec["aseed"] + 11)
+        B = rs2.randn(n, max(1, n // 2 + 1))
+        A = B @ B.T
+        keep = rs2.rand(n, n) < 0.5
+        keep = keep | keep.T | np.eye(n, dtype=bool)
+        return np.ascontiguousarray(A * keep)
     if aspec["form"] == "sk_callable":
         # parameters handed over next to a callable are documented as ignored: the callable's own defaults apply
         return np.ascontiguousarray(sk_function(aspec)(X), dtype=np.float64)
@@ -206,11 +220,37 @@ def ref_affinity(aspec, X):
     return np.ascontiguousarray(pairwise_distances(X, metric=aspec["name"], **aspec["params"]), dtype=np.float64)
 
 
+class _CallableObject:
+    """a user-written kernel / metric object: callable, but without __name__ / __qualname__"""
+
+    def __init__(self, f):
+        self._f = f
+
+    def __call__(self, *a):
+        return self._f(*a)
+
+
+def _scaled(X, Y=None, *, fam, name, params):
+    f = pairwise_kernels if fam == "kernel" else pairwise_distances
+    return 1.5 * f(X, Y, metric=name, **params)
+
+
+def flavour(f, aspec):
+    """the same function as a lambda, a functools.partial or a callable object (decided by the spec's seed)"""
+    import functools
+    k = aspec.get("aseed", 0) % 3
+    if k == 1:
+        return functools.partial(f)
+    if k == 2:
+        return _CallableObject(f)
+    return f
+
+
 def callable_affinity(aspec):
     """A callable f(X) with a recognisable output: the named function, scaled and shifted."""
     if aspec["fam"] == "kernel":
-        return lambda X: 1.5 * pairwise_kernels(X, metric=aspec["name"], **aspec["params"])
-    return lambda X: 1.5 * pairwise_distances(X, metric=aspec["name"], **aspec["params"])
+        return flavour(lambda X: 1.5 * pairwise_kernels(X, metric=aspec["name"], **aspec["params"]), aspec)
+    return flavour(lambda X: 1.5 * pairwise_distances(X, metric=aspec["name"], **aspec["params"]), aspec)
 
 
 def ref_affinity_for_form(aspec, X):
